@@ -1,7 +1,9 @@
 /* C08 harness: honest client and server of the current /repo tree, in-process, over socketpairs
  * with a passive (optionally short-read splitting) proxy in between.
  *
- *   hs <tlcp|tls12|tls13> <auth 0|1> <depth 1..3> <seed> <split 0|1> <script|->
+ *   hs <tlcp|tls12|tls13> <auth 0|1> <depth 1..3> <seed> <split 0|1> <script|-> [nca]
+ *        nca = number of CA certificates in the client's trust store and the server's client-CA bundle
+ *        (1 2 3 5; 0 = five certificates filling conn->ca_certs to exactly 2048 bytes)
  *
  * Output: key=value fields (see run.py).  The data script is executed by the main thread on the
  * two TLS_CONNECT objects after both handshakes returned 1; after every step the four public
@@ -39,22 +41,9 @@ static void print_view(const char *tag, const view_t *v) {
 	for (i = 0; i < v->n; i++) { size_t j; printf("%s%c", i ? "," : "", v->r[i].dir ? 'r' : 's'); for (j = 0; j < v->r[i].len; j++) printf("%02x", v->r[i].p[j]); }
 }
 
-static void do_hs(char **w) {
-	int protocol = proto_of(w[1]), auth = atoi(w[2]), depth = atoi(w[3]), split = atoi(w[5]);
-	uint64_t seed = strtoull(w[4], NULL, 10);
-	pki_t *k; session_t *S; uint8_t *schain = NULL, *cchain = NULL; size_t schainlen = 0, cchainlen = 0;
+/* print the observable state of both endpoints after the handshake and run the data script */
+static void report_and_transfer(session_t *S, int protocol, uint64_t seed, char *script) {
 	int hs_c2s, hs_s2c;
-	if (protocol < 0 || depth < 1 || depth > 3 || !(k = get_pki(depth))) { printf("ERR setup"); return; }
-	S = calloc(1, sizeof(*S));
-	chain_build(&schain, &schainlen, k, &k->ssign, protocol == TLS_protocol_tlcp ? &k->senc : NULL);
-	chain_build(&cchain, &cchainlen, k, &k->csign, NULL);
-	if (ep_setup(&S->s, protocol, 0, schain, schainlen, &k->ssign.key, protocol == TLS_protocol_tlcp ? &k->senc.key : NULL,
-			auth ? k->root.der : NULL, auth ? k->root.len : 0) != 1
-		|| ep_setup(&S->c, protocol, 1, auth ? cchain : NULL, auth ? cchainlen : 0, auth ? &k->csign.key : NULL, NULL,
-			k->root.der, k->root.len) != 1) { printf("ERR setup"); free(schain); free(cchain); free(S); return; }
-	S->c.seed = seed * 2 + 1; S->s.seed = seed * 2 + 2;
-	S->px.split = split; S->px.split_seed = seed;
-	session_run(S, 8000, 1);
 	hs_c2s = S->px.nrec[0]; hs_s2c = S->px.nrec[1];
 	printf("rc=%d rs=%d", S->c.hs_ret, S->s.hs_ret);
 	printf(" ver=%04x/%04x suite=%04x/%04x", S->c.conn->protocol, S->s.conn->protocol, S->c.conn->cipher_suite & 0xffff, S->s.conn->cipher_suite & 0xffff);
@@ -78,11 +67,11 @@ static void do_hs(char **w) {
 	print_view("sview", &S->s.view);
 
 	/* ---- data phase ---- */
-	if (S->c.hs_ret == 1 && S->s.hs_ret == 1 && strcmp(w[6], "-") != 0) {
+	if (S->c.hs_ret == 1 && S->s.hs_ret == 1 && strcmp(script, "-") != 0) {
 		char *save = NULL, *t; int nw[2] = { 0, 0 }; int first = 1;
 		ent_seed(seed + 77, -1);
 		printf(" xfer=");
-		for (t = strtok_r(w[6], ",", &save); t; t = strtok_r(NULL, ",", &save)) {
+		for (t = strtok_r(script, ",", &save); t; t = strtok_r(NULL, ",", &save)) {
 			int side = t[1] == 'c' ? 0 : 1; endpoint_t *e = side == 0 ? &S->c : &S->s;
 			size_t n = strtoul(t + 2, NULL, 10);
 			if (!first) printf(","); first = 0;
@@ -125,7 +114,74 @@ static void do_hs(char **w) {
 		printf(" seq2="); puthex(S->c.conn->client_seq_num, 8); printf(":"); puthex(S->c.conn->server_seq_num, 8);
 		printf("/"); puthex(S->s.conn->client_seq_num, 8); printf(":"); puthex(S->s.conn->server_seq_num, 8);
 	}
-	session_close(S); free(schain); free(cchain); free(S);
+}
+
+static int setup_pair(session_t *S, pki_t *k, int protocol, int auth, int nca, uint64_t seed, TLS_CONNECT *cconn, TLS_CONNECT *sconn) {
+	uint8_t *schain = NULL, *cchain = NULL, *anch = NULL; size_t schainlen = 0, cchainlen = 0, anchlen = 0; int r;
+	chain_build(&schain, &schainlen, k, &k->ssign, protocol == TLS_protocol_tlcp ? &k->senc : NULL);
+	chain_build(&cchain, &cchainlen, k, &k->csign, NULL);
+	/* trust stores with nca certificates (real root somewhere among decoys); nca = 0: five certificates, exactly 2048 bytes */
+	if (nca == 1) { anch = malloc(k->root.len); memcpy(anch, k->root.der, k->root.len); anchlen = k->root.len; }
+	else if (nca == 0) { if (bundle_build(&anch, &anchlen, &k->root, 5, (int)(seed % 4), TLS_MAX_CERTIFICATES_SIZE) != 1) return -1; }
+	else if (bundle_build(&anch, &anchlen, &k->root, nca, (int)(seed % (uint64_t)nca), 0) != 1) return -1;
+	r = (ep_setup_on(&S->s, sconn, protocol, 0, schain, schainlen, &k->ssign.key, protocol == TLS_protocol_tlcp ? &k->senc.key : NULL,
+			auth ? anch : NULL, auth ? anchlen : 0) == 1
+		&& ep_setup_on(&S->c, cconn, protocol, 1, auth ? cchain : NULL, auth ? cchainlen : 0, auth ? &k->csign.key : NULL, NULL,
+			anch, anchlen) == 1) ? 1 : -1;
+	free(schain); free(cchain); free(anch);
+	S->c.seed = seed * 2 + 1; S->s.seed = seed * 2 + 2;
+	return r;
+}
+
+static void do_hs(size_t nw, char **w) {
+	int protocol = proto_of(w[1]), auth = atoi(w[2]), depth = atoi(w[3]), split = atoi(w[5]);
+	int nca = nw >= 8 ? atoi(w[7]) : 1;
+	uint64_t seed = strtoull(w[4], NULL, 10);
+	pki_t *k; session_t *S;
+	if (protocol < 0 || depth < 1 || depth > 3 || !(k = get_pki(depth))) { printf("ERR setup"); return; }
+	ent_seed(0xCA0000 + (uint64_t)nca, -1);
+	S = calloc(1, sizeof(*S));
+	if (setup_pair(S, k, protocol, auth, nca, seed, NULL, NULL) != 1) { printf("ERR setup"); free(S); return; }
+	S->px.split = split; S->px.split_seed = seed;
+	session_run(S, 8000, 1);
+	report_and_transfer(S, protocol, seed, w[6]);
+	session_close(S); free(S);
+}
+
+/* two consecutive sessions on the SAME TLS_CONNECT objects (tls_init again, no tls_cleanup in between, as an
+ * accept loop does).  Session 1 ends in <state>; what is printed is session 2, which must be
+ * indistinguishable from a session on fresh objects.
+ *   hs2 <proto> <auth> <seed> <partial|rejected|closed|hsfail> <script> */
+static void do_hs2(char **w) {
+	int protocol = proto_of(w[1]), auth = atoi(w[2]); uint64_t seed = strtoull(w[3], NULL, 10); const char *state = w[4];
+	pki_t *k; session_t *S1, *S2; TLS_CONNECT *cc, *sc; uint8_t buf[256]; size_t n = 0; int r1 = 0, r2 = 0;
+	if (protocol < 0 || !(k = get_pki(1))) { printf("ERR setup"); return; }
+	S1 = calloc(1, sizeof(*S1));
+	if (setup_pair(S1, k, protocol, auth, 1, seed + 500, NULL, NULL) != 1) { printf("ERR setup"); free(S1); return; }
+	if (!strcmp(state, "hsfail")) { S1->px.fault.kind = F_FLIP; S1->px.fault.dir = 1; S1->px.fault.idx = 1; S1->px.fault.off = 9; S1->px.fault.bit = 3; }
+	session_run(S1, 3000, 1);
+	ent_seed(seed + 99, -1);
+	memset(buf, 0x5a, sizeof buf);
+	if (S1->c.hs_ret == 1 && S1->s.hs_ret == 1) {
+		if (!strcmp(state, "partial") || !strcmp(state, "rejected")) {
+			if (!strcmp(state, "rejected")) { S1->px.fault.kind = F_FLIP; S1->px.fault.dir = 0; S1->px.fault.idx = S1->px.nrec[0]; S1->px.fault.off = 30; S1->px.fault.bit = 1; S1->px.fault.applied = 0; }
+			r1 = ep_send(&S1->c, buf, 100, &n); r2 = ep_recv(&S1->s, buf, 7, &n);       /* 93 bytes stay buffered at the server (or the record is rejected) */
+			memset(buf, 0x6b, sizeof buf);
+			ep_send(&S1->s, buf, 60, &n); ep_recv(&S1->c, buf, 5, &n);                  /* 55 bytes stay buffered at the client */
+		} else if (!strcmp(state, "closed")) {
+			ep_send(&S1->s, buf, 10, &n);
+			if (protocol != TLS_protocol_tls13) { r1 = tls_shutdown(S1->c.conn); r2 = ep_recv(&S1->s, buf, 50, &n); }
+			else { r1 = ep_recv(&S1->c, buf, 3, &n); }
+		}
+	}
+	(void)r1; (void)r2;
+	cc = S1->c.conn; sc = S1->s.conn; S1->c.conn = NULL; S1->s.conn = NULL;
+	{ int c1 = S1->c.hs_ret, s1 = S1->s.hs_ret; session_close(S1); free(S1); printf("first=%d/%d ", c1, s1); }
+	S2 = calloc(1, sizeof(*S2));
+	if (setup_pair(S2, k, protocol, auth, 1, seed, cc, sc) != 1) { printf("ERR setup2"); free(S2); return; }
+	session_run(S2, 8000, 1);
+	report_and_transfer(S2, protocol, seed, w[5]);
+	session_close(S2); free(S2);
 }
 
 int tls13_hkdf_extract(const DIGEST *digest, const uint8_t salt[32], const uint8_t in[32], uint8_t out[32]);
@@ -135,7 +191,8 @@ int tls13_compute_verify_data(const uint8_t *handshake_traffic_secret, const DIG
 	uint8_t *verify_data, size_t *verify_data_len);
 
 static void handle(size_t nw, char **w) {
-	if (!strcmp(w[0], "hs") && nw == 7) do_hs(w);
+	if (!strcmp(w[0], "hs") && (nw == 7 || nw == 8)) do_hs(nw, w);
+	else if (!strcmp(w[0], "hs2") && nw == 6) do_hs2(w);
 	else if (!strcmp(w[0], "prf") && nw == 6) {
 		buf_t secret = hex2buf(w[1]), label = hex2buf(w[2]), seed = hex2buf(w[3]), more = hex2buf(w[4]);
 		size_t outlen = strtoul(w[5], NULL, 10); uint8_t *out = malloc(outlen ? outlen : 1);
